@@ -282,6 +282,66 @@ def work(item):
             if r:
                 st.violation(*r)
         return st
+    if part[0] == "collide":
+        # pairs of different well-formed formulas that a lookup keyed by less than the whole string confuses: same length and same value under a
+        # common string hash (djb2, x31, x37, x131, sdbm, FNV-1a, all mod 2^32), same multiset of characters, same character sum.  One right
+        # after the other, both ways: each must get its own composition (judged by the strict recogniser as everywhere else).
+        M = 2 ** 32
+
+        def mult(m0, h0):
+            def f(s):
+                h = h0
+                for ch in s:
+                    h = (h * m0 + ch) % M
+                return h
+            return f
+
+        def fnv(s):
+            h = 2166136261
+            for ch in s:
+                h = ((h ^ ch) * 16777619) % M
+            return h
+        keys = {"djb2": mult(33, 5381), "x31": mult(31, 0), "x37": mult(37, 0), "x131": mult(131, 0), "sdbm": mult(65599, 0), "fnv1a": fnv,
+                "multiset": lambda s: bytes(sorted(s)), "sum": lambda s: sum(s), "xor": lambda s: __import__("functools").reduce(lambda a, b: a ^ b, s, 0)}
+        pal1 = [s for s in ("H C N O F Na Mg Al Si P S Cl K Ca Ti Cr Mn Fe Co Ni Cu Zn Ga Ge As Se Br Sr Y Zr Mo Ag Cd In Sn Sb I Ba La Ce W Pt Au Hg Pb Bi U".split())]
+        subs1 = ["", "2", "3", "4", "5", "6", "7", "8", "9"]
+        t1 = [a + b for a in pal1 for b in subs1]
+        cand = set(t1)
+        cand.update(a + b for a in t1 for b in t1)
+        pal2 = "H C N O S Si Ca Fe Cd Ce Cu".split()
+        t2 = [a + b for a in pal2 for b in ("", "2", "3")]
+        cand.update(a + b + c for a in t2 for b in t2 for c in t2)
+        cand = sorted(c.encode() for c in cand)
+        comp = {}
+        for c in cand:
+            v, info = strict_parse(c, env.aw)
+            if v == "accept":
+                comp[c] = tuple(sorted(info.items()))
+        rng = random.Random(mix(seed, "c07-collide"))
+        for kname, kf in sorted(keys.items()):
+            groups = {}
+            for c in comp:
+                groups.setdefault((len(c), kf(c)), []).append(c)
+            pairs = []
+            for g in groups.values():
+                if len(g) < 2:
+                    continue
+                g = sorted(g)
+                rng.shuffle(g)
+                for a, b in zip(g, g[1:]):
+                    if comp[a] != comp[b]:
+                        pairs.append((a, b))
+            rng.shuffle(pairs)
+            st.cls("collision_pairs:" + kname, len(pairs[:60]))
+            for a, b in pairs[:60]:
+                for x, y in ((a, b), (b, a)):
+                    judge_string(st, env, x, "collide")
+                    r = judge_string(st, env, y, "collide:%s after %s" % (kname, x.decode()))
+                    if r:
+                        st.violation(*r)
+                st.nt_key("collide", a, b)
+        st.sample("collide", dict(example="CdSO4 then Ce2O4 (djb2)"), cap=1)
+        return st
     if part[0] == "pairs":
         k, m = part[1], part[2]
         for i, a in enumerate(formulas.SYMBOLS):
@@ -486,7 +546,7 @@ def run(ctx):
                 "fractional / leading-dot subscripts) each also permuted and with one group expanded, plus insertion of an element without atomic "
                 "weight; (c) Hypothesis single-character insert/delete/substitute mutants (bytes 1..255) and the exhaustive mutant set of 9 pool "
                 "formulas, classified MUST-ACCEPT / MUST-REJECT / UNSPECIFIED by a strict reference recogniser; (d) add_compound_data on "
-                "generated pairs; numeric locale (C.utf8, or a generated decimal-comma locale in every second grammar / mutant worker) compared before/after every call. Oracle: exact Fraction expansion, weights from "
+                "generated pairs and chains; (d') pairs of different formulas of equal length that collide under common string hashes / character multisets, one right after the other; numeric locale (C.utf8, or a generated decimal-comma locale in every second grammar / mutant worker) compared before/after every call. Oracle: exact Fraction expansion, weights from "
                 "atomicweight.dat, 1e-12. non-trivial = formula with a group / repeated element / fractional subscript; mutant whose verdict "
                 "differs from its parent's; pair/single (distinct by string)")
     b = ctx.build("plain", "A")
@@ -494,7 +554,7 @@ def run(ctx):
     import localetool
     COMMA = localetool.make_comma_locale(ctx.sdir)
     ctx.extra["comma_locale"] = bool(COMMA)
-    parts = ["singles"] + [("pairs", k, 8) for k in range(8)] + [("exhaustive_mutants", k, 3) for k in range(3)]
+    parts = ["singles", ("collide",)] + [("pairs", k, 8) for k in range(8)] + [("exhaustive_mutants", k, 3) for k in range(3)]
     reps = 4 if ctx.quick else 12
     for k in range(reps):
         parts += [("grammar", k), ("mutants", k), ("add", k)]
